@@ -911,7 +911,10 @@ impl World {
                 "read ({issuer}, {id}) issued when some node had committed {bound} was answered with index {} on node {n}",
                 rs.index
             );
-            return Err(self.violation("C08", "C08.read_index_bound", n, d, "stale_read".into()));
+            // history precondition of a known finding: this node, as leader, was handed the same forwarded
+            // read request twice (network duplicate), so acknowledgements of the first registration count for the second
+            let sig = if self.ghost.dup_read_at.contains(&n) { "stale_read:duplicate_forwarded_request" } else { "stale_read" };
+            return Err(self.violation("C08", "C08.read_index_bound", n, d, sig.into()));
         }
         Ok(())
     }
